@@ -2,6 +2,7 @@ package main
 
 import (
 	"fmt"
+	"go/token"
 	"go/types"
 	"sort"
 	"strings"
@@ -209,6 +210,13 @@ func ifaceMethodKey(recv types.Type, m *types.Func) string {
 
 // trackName: ghost call-log name for a call ("" when untracked).
 func (g *Gen) trackName(c *ssa.CallCommon) string {
+	if !c.IsInvoke() {
+		if p := paramOfFnValue(c.Value); p != nil {
+			if con := g.contracts[g.fnName(p.Parent())]; con != nil && con.Invokes == p.Name() {
+				return p.Name()
+			}
+		}
+	}
 	if c.IsInvoke() {
 		rt := c.Value.Type()
 		k := ifaceMethodKey(rt, c.Method)
@@ -236,6 +244,33 @@ func (g *Gen) trackName(c *ssa.CallCommon) string {
 		}
 	}
 	return ""
+}
+
+// paramOfFnValue: v is (a load of the local copy of) a function-typed parameter.
+func paramOfFnValue(v ssa.Value) *ssa.Parameter {
+	switch x := v.(type) {
+	case *ssa.Parameter:
+		if _, ok := x.Type().Underlying().(*types.Signature); ok {
+			return x
+		}
+	case *ssa.UnOp:
+		if a, ok := x.X.(*ssa.Alloc); ok && x.Op == token.MUL {
+			var stores []*ssa.Store
+			for _, r := range *a.Referrers() {
+				if s, ok := r.(*ssa.Store); ok && s.Addr == a {
+					stores = append(stores, s)
+				}
+			}
+			if len(stores) == 1 {
+				if p, ok := stores[0].Val.(*ssa.Parameter); ok {
+					if _, isFn := p.Type().Underlying().(*types.Signature); isFn {
+						return p
+					}
+				}
+			}
+		}
+	}
+	return nil
 }
 
 // ---------- frame inference ----------
@@ -386,6 +421,9 @@ func (g *Gen) callFrame(c *ssa.CallCommon, forCallers bool) *Frame {
 		if con := g.contracts[g.fnName(v)]; con != nil {
 			for _, ef := range con.Effects {
 				fr.facts[ef.Var] = true
+			}
+			for _, se := range con.Sets {
+				fr.facts[se.Var] = true
 			}
 		}
 		g.resolveDeps(fr, v, c.Args, false, forCallers)
@@ -835,15 +873,74 @@ func (fc *FnCtx) applyContract(st *State, in ssa.Instruction, c *ssa.CallCommon,
 		fc.oblige(st, "pre@"+short, r.Label, t, in.Pos(), r.Props)
 		fc.q.assert(implies(st.reach, t))
 	}
+	// higher-order contract: the callee invokes its function-typed parameter exactly once, first.
+	var override map[string]string
+	if con.Invokes != "" {
+		for i, n := range names {
+			if n != con.Invokes || i >= len(c.Args) && !(callee != nil && i < len(callee.Params)) {
+				continue
+			}
+			argIdx := i
+			if argIdx >= len(c.Args) {
+				break
+			}
+			var cfn *ssa.Function
+			switch av := c.Args[argIdx].(type) {
+			case *ssa.MakeClosure:
+				cfn = av.Fn.(*ssa.Function)
+			case *ssa.Function:
+				cfn = av
+			}
+			if cfn == nil {
+				// delegation: our own function-typed parameter is handed on; its (unknown) results become our log entry
+				if pp := paramOfFnValue(c.Args[argIdx]); pp != nil {
+					psig := pp.Type().Underlying().(*types.Signature)
+					var prt types.Type = psig.Results()
+					if psig.Results().Len() == 1 {
+						prt = psig.Results().At(0).Type()
+					}
+					st.havocAll()
+					pres := fc.freshVal(st, prt, "delegated_"+pp.Name())
+					fc.logCall(st, pp.Name(), nil, pres)
+					override = map[string]string{"#" + n: "1"}
+					rs := pres.Tup
+					if rs == nil && pres.T != "" {
+						rs = []Val{pres}
+					}
+					for ri, r := range rs {
+						if r.T != "" {
+							override[fmt.Sprintf("#%s.ret%d", n, ri)] = r.T
+						}
+					}
+				}
+				break
+			}
+			cres := fc.invokeClosure(st, in, cfn, c.Args[argIdx])
+			override = map[string]string{"#" + n: "1"}
+			rs := cres.Tup
+			if rs == nil && cres.T != "" {
+				rs = []Val{cres}
+			}
+			for ri, r := range rs {
+				if r.T != "" {
+					override[fmt.Sprintf("#%s.ret%d", n, ri)] = r.T
+				}
+			}
+		}
+	}
 	var fr *Frame
 	if con.Modifies != nil || con.Pure {
 		fr = con.frame(g)
 	} else {
 		fr = g.callFrame(c, false)
 	}
+	if override != nil {
+		// the closure's own effects have been applied above; what remains is the callee's own frame
+		fr = g.ownFrameWithoutParamCalls(callee, fr)
+	}
 	fc.applyFrame(st, fr)
 	res := fc.freshVal(st, resT, "ret_"+sanitize(calleeShort(c)))
-	post := &Env{fc: fc, vars: env.vars, pre: pre, cur: st, pkg: con.Pkg}
+	post := &Env{fc: fc, vars: env.vars, pre: pre, cur: st, pkg: con.Pkg, ghostOverride: override}
 	for a := range fc.g.closeDeps(fr).arrs {
 		post.frameArrs = append(post.frameArrs, a)
 	}
@@ -862,8 +959,21 @@ func (fc *FnCtx) applyContract(st *State, in ssa.Instruction, c *ssa.CallCommon,
 			}
 		}
 	}
+	for _, se := range con.Sets {
+		t, err := fc.evalBool(post, se.Expr)
+		if err != nil {
+			fc.err = fmt.Errorf("%s: call %s sets %q: %v", fc.name, key, se.Text, err)
+			return res
+		}
+		k := "fact:" + se.Var
+		fc.ghostSort[k] = sBool
+		if _, ok := fc.ghostInit[k]; !ok {
+			fc.ghostInit[k] = fc.factInit(se.Var)
+		}
+		st.ghost[k] = t
+	}
 	for _, e := range con.Ensures {
-		if hasGhost(e.Expr) {
+		if hasGhost(e.Expr) && !(override != nil && ghostsWithin(e.Expr, "#"+con.Invokes)) {
 			continue // speaks about the callee's own call log
 		}
 		t, err := fc.evalBool(post, e.Expr)
@@ -1071,3 +1181,111 @@ func (fc *FnCtx) execAppend(st *State, in ssa.Instruction, c *ssa.CallCommon, ar
 }
 
 func (fc *FnCtx) usesLambda() { fc.abstracted["[info] uses z3 lambda arrays (append/sort)"] = true }
+
+// invokeClosure: one call of the closure/function value cv (function cfn) at the current point, by its contract
+// (or its inferred frame when it has none). Captured variables are the cells bound at closure creation.
+func (fc *FnCtx) invokeClosure(st *State, in ssa.Instruction, cfn *ssa.Function, cv ssa.Value) Val {
+	g := fc.g
+	key := g.fnName(cfn)
+	ccon := g.contracts[key]
+	sig := cfn.Signature
+	var resT types.Type = sig.Results()
+	if sig.Results().Len() == 1 {
+		resT = sig.Results().At(0).Type()
+	}
+	pre := st.clone()
+	env := &Env{fc: fc, vars: map[string]Val{}, pre: pre, cur: pre}
+	if ccon != nil {
+		env.pkg = ccon.Pkg
+	}
+	if mc, ok := cv.(*ssa.MakeClosure); ok {
+		env.byRef = map[string]types.Type{}
+		for i, fv := range cfn.FreeVars {
+			if i < len(mc.Bindings) {
+				bv := fc.val(st, mc.Bindings[i])
+				bv.Typ = fv.Type()
+				env.vars[fv.Name()] = bv
+				if pt, ok := fv.Type().Underlying().(*types.Pointer); ok {
+					env.byRef[fv.Name()] = pt.Elem()
+				}
+			}
+		}
+	}
+	short := key[strings.LastIndex(key, "/")+1:]
+	if ccon != nil {
+		for _, r := range ccon.Requires {
+			t, err := fc.evalBool(env, r.Expr)
+			if err != nil {
+				fc.err = fmt.Errorf("%s: closure %s requires %q: %v", fc.name, key, r.Text, err)
+				return fc.freshVal(st, resT, "closure")
+			}
+			fc.oblige(st, "pre@"+short, r.Label, t, in.Pos(), r.Props)
+			fc.q.assert(implies(st.reach, t))
+		}
+	}
+	var fr *Frame
+	if ccon != nil && (ccon.Modifies != nil || ccon.Pure) {
+		fr = ccon.frame(g)
+	} else {
+		fr = newFrame()
+		fr.union(g.funcFrame(cfn))
+	}
+	if ccon != nil {
+		for _, se := range ccon.Sets {
+			fr.facts[se.Var] = true
+		}
+	}
+	fc.applyFrame(st, fr)
+	res := fc.freshVal(st, resT, "closure_"+sanitize(cfn.Name()))
+	if ccon == nil {
+		g.uncontracted[key] = true
+		return res
+	}
+	post := &Env{fc: fc, vars: env.vars, pre: pre, cur: st, pkg: ccon.Pkg, byRef: env.byRef}
+	if res.Tup != nil {
+		post.results = res.Tup
+	} else if res.T != "" || res.SV != nil {
+		post.results = []Val{res}
+	}
+	for i := range post.results {
+		if i < sig.Results().Len() {
+			post.results[i].Typ = sig.Results().At(i).Type()
+		}
+	}
+	for _, se := range ccon.Sets {
+		t, err := fc.evalBool(post, se.Expr)
+		if err != nil {
+			fc.err = fmt.Errorf("%s: closure %s sets %q: %v", fc.name, key, se.Text, err)
+			return res
+		}
+		k := "fact:" + se.Var
+		fc.ghostSort[k] = sBool
+		if _, ok := fc.ghostInit[k]; !ok {
+			fc.ghostInit[k] = fc.factInit(se.Var)
+		}
+		st.ghost[k] = t
+	}
+	for _, e := range ccon.Ensures {
+		if hasGhost(e.Expr) {
+			continue
+		}
+		t, err := fc.evalBool(post, e.Expr)
+		if err != nil {
+			fc.err = fmt.Errorf("%s: closure %s ensures %q: %v", fc.name, key, e.Text, err)
+			return res
+		}
+		fc.q.assert(implies(st.reach, t))
+	}
+	return res
+}
+
+// ownFrameWithoutParamCalls: the callee's frame minus what it only does through its function-typed parameters.
+func (g *Gen) ownFrameWithoutParamCalls(callee *ssa.Function, resolved *Frame) *Frame {
+	if callee == nil || len(callee.Blocks) == 0 {
+		return resolved
+	}
+	own := newFrame()
+	own.union(g.funcFrame(callee))
+	own.callsParam = false
+	return own
+}
